@@ -44,16 +44,26 @@ def run(ctx):
         ctx.lost("R08.1", "margined_engine::contract::reply")
     else:
         ctx.analysed["functions"].add(rt.fn.pretty)
-        for ident, ps in sorted(rt.err.items()):
+        # one obligation per reply id the engine can construct (and one for any other id), whatever the shape of the
+        # dispatcher: an arm of its own for the id, or a generic failure branch that does not look at the id
+        built = set()
+        for root_ in (ix.entry(ENG, "execute"), ix.entry(ENG, "reply")):
+            if root_ is not None:
+                for s_ in model.reachable_submsgs(ix, root_):
+                    if s_.reply_on_name() in ("Always", "Error", "Success") and s_.id_int() is not None:
+                        built.add(str(s_.id_int()))
+        generic = rt.err.get("other", []) + rt.err.get("any", [])
+        for ident in sorted(built, key=lambda x: int(x)) + ["other"]:
+            ps = rt.err.get(ident) or generic if ident != "other" else generic
             bad = []
             for p in ps:
                 k = p.kind()
                 if k in ("ok", "value") or (k == "dep" and can_return_ok(ix, p.ret)):
                     bad.append(p)
-            ctx.inst("R08.1", "reply-err-arm:id=%s" % ident, not bad,
-                     rt.fn.where(ps[0].conds[-1][3] if ps[0].conds else None),
+            ctx.inst("R08.1", "reply-err-arm:id=%s" % ident, bool(ps) and not bad,
+                     rt.fn.where(ps[0].conds[-1][3] if ps and ps[0].conds else None),
                      "failure of sub-message id %s: %d path(s), %s" % (ident, len(ps),
-                        "all return Err" if not bad else "a path RETURNS OK after the sub-message failed: ret=%s" % sym.show(bad[0].ret, 6)))
+                        "all return Err" if ps and not bad else ("no failure branch applies to this id" if not ps else "a path RETURNS OK after the sub-message failed: ret=%s" % sym.show(bad[0].ret, 6))))
         for p in rt.unknown:
             if p.kind() in ("ok", "value", "dep"):
                 ctx.inst("R08.1", "reply-undispatched-ok", False, rt.fn.where(), "reply() has a success path that does not test msg.result")
@@ -89,12 +99,12 @@ def run(ctx):
             if ro == "Always":
                 if str(ident) not in ok_ids:
                     why.append("no success arm for id %d in reply()" % ident)
-                if str(ident) not in err_ids:
-                    why.append("no explicit failure arm for id %d in reply()" % ident)
+                if str(ident) not in err_ids and "other" not in rt.err and "any" not in rt.err:
+                    why.append("no failure arm for id %d in reply()" % ident)
                 if rt.fn and rt.handler(ix, ident) is None:
                     why.append("success arm of id %d calls no handler" % ident)
             elif ro == "Error":
-                if str(ident) not in err_ids and "other" not in rt.err:
+                if str(ident) not in err_ids and "other" not in rt.err and "any" not in rt.err:
                     why.append("no failure arm for id %d" % ident)
                 if str(ident) in ok_ids:
                     why.append("id %d is also a swap/funding id" % ident)
